@@ -41,6 +41,9 @@ func (raceDom) Gen(r *gen.R, tier string, emit func(string)) {
 	for i := 0; i < n; i++ {
 		emit(wire.Line("race", strconv.Itoa(1+r.Intn(4)), strconv.Itoa(r.Intn(1000000))))
 		emit(wire.Line("raceq", strconv.Itoa(2+r.Intn(3)), strconv.Itoa(r.Intn(1000000))))
+		if i%3 == 0 {
+			emit(wire.Line("raceown", strconv.Itoa(i/3), strconv.Itoa(r.Intn(1000000))))
+		}
 	}
 }
 
@@ -361,15 +364,73 @@ func raceQScenario(workers int, seed uint64) string {
 	return "done"
 }
 
+// raceOwnership: services whose default ownership has an empty side (access-only, get-only,
+// explicitly empty lists) with ResetAll, Reset and requests from several goroutines.
+func raceOwnership(variant int, seed uint64) string {
+	r := gen.New(seed)
+	s := res.NewService("ro")
+	s.SetLogger(logger.NewMemLogger())
+	switch variant % 3 {
+	case 0:
+		s.Handle("a.$id", res.Access(func(r res.AccessRequest) { r.AccessGranted() }))
+	case 1:
+		s.Handle("a.$id", res.GetResource(func(r res.GetRequest) { r.NotFound() }))
+	default:
+		s.Handle("a.$id", res.Access(func(r res.AccessRequest) { r.AccessGranted() }), res.GetResource(func(r res.GetRequest) { r.NotFound() }))
+		s.SetOwnedResources([]string{}, []string{"ro.>"})
+	}
+	conn := recconn.New()
+	served := make(chan struct{})
+	s.SetOnServe(func(*res.Service) { close(served) })
+	done := make(chan error, 1)
+	go func() { done <- s.Serve(conn) }()
+	select {
+	case <-served:
+	case <-time.After(5 * time.Second):
+		return "serve-hung"
+	}
+	var wg sync.WaitGroup
+	for g := 0; g < 4; g++ {
+		wg.Add(1)
+		rr := r.Fork()
+		go func(g int) {
+			defer wg.Done()
+			for i := 0; i < 150; i++ {
+				switch rr.Intn(4) {
+				case 0, 1:
+					s.ResetAll()
+				case 2:
+					s.Reset([]string{"ro.a.1"}, nil)
+				default:
+					conn.Deliver(fmt.Sprintf("access.ro.a.%d", rr.Intn(3)), fmt.Sprintf("_INBOX.o%d_%d", g, i), nil)
+				}
+			}
+		}(g)
+	}
+	wg.Wait()
+	sd := make(chan struct{})
+	go func() { s.Shutdown(); close(sd) }()
+	select {
+	case <-sd:
+	case <-time.After(5 * time.Second):
+		return "shutdown-hung"
+	}
+	<-done
+	return "done"
+}
+
 func (raceDom) Exec(a []string) string {
 	return Safe(func() string {
-		if len(a) < 3 || (a[0] != "race" && a[0] != "raceq") {
+		if len(a) < 3 || (a[0] != "race" && a[0] != "raceq" && a[0] != "raceown") {
 			return "bad-op"
 		}
 		w, _ := strconv.Atoi(a[1])
 		seed, _ := strconv.Atoi(a[2])
 		if a[0] == "raceq" {
 			return raceQScenario(w, uint64(seed))
+		}
+		if a[0] == "raceown" {
+			return raceOwnership(w, uint64(seed))
 		}
 		return raceScenario(w, uint64(seed))
 	})
